@@ -205,7 +205,9 @@ func SimplifyBounds(ctx *OpContext, k Kind, x, y *BoundValue) Value {
 		//     a+1 if b-a == 2
 		//     _|_ if b <= a
 
-		if d.Negative {
+		if d.Sign() < 0 {
+			// Note that d.Negative may be set for a zero difference,
+			// as in >=0 & <=(-1*0), where the bounds are equal.
 			return errIncompatibleBounds(ctx, k, x, y)
 		}
 		switch diff, err := d.Int64(); {
